@@ -21,7 +21,7 @@ def deepcopy(I, v, memo):
         if items is not None:
             nb = I.new_list([], v.is_tuple)
             memo[id(v)] = nb
-            nb.term = Conc(I, [deepcopy(I, x, memo) for x in items])
+            nb.term = core.mk_conc(I, [deepcopy(I, x, memo) for x in items])
         else:
             nb = I.new_alist(v.term, v.is_tuple)  # elements are immutable
             memo[id(v)] = nb
@@ -107,9 +107,9 @@ def slice_value(I, obj, sl):
         if st in (None, 1) and hi is None and lo in (None, 0):
             return I.new_alist(t, obj.is_tuple)
         if st in (None, 1) and hi is None and lo == 1:
-            return I.new_alist(Drop1(I, t), obj.is_tuple)
+            return I.new_alist(core.mk_unary(I, Drop1, t), obj.is_tuple)
         if st == -1 and lo is None and hi is None:
-            return I.new_alist(Reverse(I, t), obj.is_tuple)
+            return I.new_alist(core.mk_unary(I, Reverse, t), obj.is_tuple)
         raise Unsupported("slice [%s:%s:%s] of an abstract list" % (lo, hi, st))
     if hasattr(obj, "slice_value"):
         return obj.slice_value(I, sl)
@@ -278,7 +278,7 @@ def list_method(I, box, name):
                     I.raise_exc(INDEX_ERR, "pop index out of range")
                 new = list(items)
                 v = new.pop(idx)
-                b.term = Conc(I, new)
+                b.term = core.mk_conc(I, new)
                 return v
             kx = bm.norm_index(I, idx, n)
             if items is not None:
@@ -295,10 +295,10 @@ def list_method(I, box, name):
             if items is not None and isinstance(idx, int):
                 new = list(items)
                 new.insert(idx, x)
-                b.term = Conc(I, new)
+                b.term = core.mk_conc(I, new)
                 return None
             if isinstance(idx, int) and idx == 0:
-                b.term = Concat(I, [Conc(I, [x]), b.term], bm.etype_of_term(I, b.term))
+                b.term = core.mk_concat(I, [core.mk_conc(I, [x]), b.term], bm.etype_of_term(I, b.term))
                 return None
             if is_z3(idx) or isinstance(idx, int):
                 n = b.term.length()
@@ -335,9 +335,9 @@ def list_method(I, box, name):
             I.check_mutable(b)
             items = I.items_of(b)
             if items is not None:
-                b.term = Conc(I, list(reversed(items)))
+                b.term = core.mk_conc(I, list(reversed(items)))
             else:
-                b.term = Reverse(I, b.term)
+                b.term = core.mk_unary(I, Reverse, b.term)
         return mk(f)
     return None
 
@@ -391,14 +391,35 @@ def sort_in_place(I, box):
                 else:
                     break
             out.insert(pos, x)
-        box.term = Conc(I, out)
+        box.term = core.mk_conc(I, out)
         return
     t = box.term
     if isinstance(t, Sorted):
         return
     if prove_sorted(I, t):
         return
-    box.term = Sorted(I, t, bm.elem_lex_le(I))
+    box.term = core.mk_sorted(I, t, bm.elem_lex_le(I))
+
+
+def add_adjacent_fact(I, term, cond, fn, tag):
+    """record  forall k. fn(T[k], T[k+1])  (when cond holds) and apply the chain rule:
+    if fn is transitive on elements satisfying T's facts, it holds for every i < j (Lean: chain_pairwise)."""
+    ctx = I.ctx
+    term.adj_facts.append((cond, fn, tag))
+    i, j, k = ctx.fresh_int("c1"), ctx.fresh_int("c2"), ctx.fresh_int("c3")
+    a = term.new_member(TRUE, i)
+    b = term.new_member(TRUE, j)
+    c = term.new_member(TRUE, k)
+    I.ctx.pure_depth += 1
+    try:
+        goal = z3.Implies(z3.And(cond, i < j, j < k, to_z3(fn(a.elem, b.elem)), to_z3(fn(b.elem, c.elem))),
+                          to_z3(fn(a.elem, c.elem)))
+    finally:
+        I.ctx.pure_depth -= 1
+    if ctx.entails(goal):
+        term.pair_facts.append((cond, fn, tag + "+chain"))
+        return True
+    return False
 
 
 def dedup_term(I, term, ordered=True):
@@ -492,22 +513,21 @@ def fuse(I, fm):
     if not isinstance(inner, FM):
         return fm
     inner = fuse(I, inner)
-    if not isinstance(inner, FM) or isinstance(inner.src, FM):
-        pass
+    from .loops import free_names, value_exprs
     j2 = fm.jvar
     j1 = inner.jvar
-    inner_at = inner.at(j2)
-    inner_parts = I.elem_parts(inner_at)
+    consts = [c for c, _ in fm.binds]
+    if len(consts) != len(I.elem_parts(inner.at(j2))):
+        return fm
     new_paths = []
 
-    def subst_for(out):
-        return list(zip(inner_parts, [to_z3(p) for p in I.elem_parts(I.coerce_elem(out, inner.etype))]))
+    def pairs_for(out):
+        return list(zip(consts, [to_z3(p) for p in I.elem_parts(I.coerce_elem(out, inner.etype))]))
 
     for p1 in inner.paths:
-        # choose a path of fm for each output of p1
         combos = [[]]
         for o in p1.outs:
-            pairs = subst_for(o)
+            pairs = pairs_for(o)
             nxt = []
             for c in combos:
                 for p2 in fm.paths:
@@ -518,15 +538,13 @@ def fuse(I, fm):
         for c in combos:
             g = z3.And([p1.guard] + [x[0] for x in c]) if c else p1.guard
             outs = [o for x in c for o in x[1]]
-            # the index variable of the outer FM must not survive
             new_paths.append(FMPath(z3.simplify(g), outs))
-    names = set()
-    from .loops import free_names, value_exprs
     exprs = [p.guard for p in new_paths] + [e for p in new_paths for o in p.outs for e in value_exprs(I, o)]
-    if j2.decl().name() in free_names(exprs):
+    names = free_names(exprs)
+    if j2.decl().name() in names or any(c.decl().name() in names for c in consts):
         return fm
     new_paths = [p for p in new_paths if not z3.is_false(p.guard)]
-    return FM(I, inner.src, j1, new_paths, fm.etype)
+    return core.mk_fm(I, inner.src, j1, new_paths, fm.etype, inner.binds)
 
 
 def segments(I, term):
